@@ -73,6 +73,26 @@ def _check_message_total(run: Run, m, fi: FuncInfo, r: ast.Raise) -> None:
     raise expression are read for constructs that can raise on a value nobody has looked at."""
     if r.exc is None or not isinstance(r.exc, ast.Call):
         return
+    # str.join over elements that are not known to be strings (sep.join(k.value for k in keys): TypeError for an int key):
+    # in the raise expression itself, or in the definition of a local the message uses that was made on the way to it
+    from ..model import parent as _par
+
+    exprs = [r.exc]
+    blk = next((getattr(_par(r), f_) for f_ in ("body", "orelse", "finalbody") if isinstance(getattr(_par(r), f_, None), list) and any(y is r for y in getattr(_par(r), f_))), [])
+    used = {n_.id for n_ in ast.walk(r.exc) if isinstance(n_, ast.Name)}
+    for st_ in blk:
+        if st_ is r:
+            break
+        if isinstance(st_, ast.Assign) and len(st_.targets) == 1 and isinstance(st_.targets[0], ast.Name) and st_.targets[0].id in used:
+            exprs.append(st_.value)
+    for e_ in exprs:
+        for x in ast.walk(e_):
+            if isinstance(x, ast.Call) and isinstance(x.func, ast.Attribute) and x.func.attr == "join" and isinstance(x.func.value, ast.Constant) and isinstance(x.func.value.value, str) and len(x.args) == 1:
+                a0 = x.args[0]
+                elt = a0.elt if isinstance(a0, (ast.GeneratorExp, ast.ListComp)) else None
+                is_text = elt is not None and (isinstance(elt, ast.JoinedStr) or (isinstance(elt, ast.Call) and isinstance(elt.func, ast.Name) and elt.func.id in ("str", "repr")) or (isinstance(elt, ast.Constant) and isinstance(elt.value, str)) or (isinstance(elt, ast.Call) and isinstance(elt.func, ast.Attribute) and elt.func.attr == "unparse"))
+                if elt is not None and not is_text:
+                    run.fail("C10.R4", fi, r, f"the message of this refusal joins {ast.unparse(elt)[:40]} with str.join, which raises TypeError for an element that is not a string: for {{1: e.x, 'a': e.y}}.b the designed ValueError ('key not found') never arrives, the user gets an internal TypeError", "', '.join(str(k.value) for k in ..) / f-string", key=f"refusal message joins non-strings in {fi.name}")
     for x in ast.walk(r.exc):
         if x is r.exc or not (isinstance(x, ast.Call) and isinstance(x.func, (ast.Name, ast.Attribute))):
             continue
